@@ -57,8 +57,7 @@ Definition dec_value (s : string) : Qc :=
   let '(i, f) := split_dot s EmptyString in
   Qcdiv (qz (digits_val (i ++ f)%string 0)) (qz (10 ^ Z.of_nat (String.length f))).
 
-(* seconds of a duration given in whole milliseconds, and exactly *)
-Definition secs_of_ms (ms : Z) : Qc := qfrac ms 1000.
+(* the range in seconds *)
 Definition secs_exact (dur_ns : Z) : Qc := qfrac dur_ns 1000000000.
 
 (* ---------- rows ---------- *)
@@ -112,9 +111,9 @@ Section SEM.
   Definition eval_lra (v : lra_val) (g : list mrow) : Qc :=
     match v with
     | LVCount => qlen g
-    | LVCountDiv ms => Qcdiv (qlen g) (secs_of_ms ms)
+    | LVCountDiv d => Qcdiv (qlen g) (secs_exact d)
     | LVBytes => bytes_of g
-    | LVBytesDiv ms => Qcdiv (bytes_of g) (secs_of_ms ms)
+    | LVBytesDiv d => Qcdiv (bytes_of g) (secs_exact d)
     end.
   (* LRAPlanner: SELECT intDiv(ts, d) * d as timestamp_ns, fingerprint, <v> as value [, any(labels)] GROUP BY fingerprint, timestamp_ns *)
   Definition sem_lra (v : lra_val) (d : Z) (rows : list mrow) : list mrow :=
@@ -130,7 +129,7 @@ Section SEM.
     let vals := map (fun x => r_val (fst x)) g in
     match v with
     | UVSum => qsum vals
-    | UVSumDiv ms => Qcdiv (qsum vals) (secs_of_ms ms)
+    | UVSumDiv d => Qcdiv (qsum vals) (secs_exact d)
     | UVAvg => qavg vals
     | UVMax => qmax_l vals
     | UVMin => qmin_l vals
@@ -199,7 +198,7 @@ Section SEM.
   Definition floor15 (x : Z) : Z := Z.quot x 15000000000 * 15000000000.
   Definition m15_rows (rows : list mrow) : list mrow := map (fun r => set_ts (floor15 (r_ts r)) r) rows.
   Definition eval_m15 (v : m15_val) (g : list mrow) : Qc :=
-    match v with MVCount => qlen g | MVCountDiv ms => Qcdiv (qlen g) (secs_of_ms ms) end.
+    match v with MVCount => qlen g | MVCountDiv d => Qcdiv (qlen g) (secs_exact d) end.
   Definition sem_m15 (v : m15_val) (d : Z) (slots : list mrow) : list mrow :=
     map (fun g => agg_row (eval_m15 v g) g) (group_by same_fp_ts (map (fun r => set_ts (bucket_sql_z d (r_ts r)) r) slots)).
   Definition sem_m15_rows (v : m15_val) (d : Z) (rows : list mrow) : list mrow := sem_m15 v d (m15_rows rows).
